@@ -72,6 +72,10 @@ def extract(repo=None, features=None, quiet=True):
     with open(lock_path, "w") as lock:
         fcntl.flock(lock, fcntl.LOCK_EX)
         if all(os.path.exists(os.path.join(out_dir, c + ".json")) for c in CRATES):
+            try:
+                os.utime(out_dir, None)          # last use: the eviction below never removes a directory that was used in the last quarter of an hour
+            except OSError:
+                pass
             return out_dir
         ensure_driver()
         tmp_out = out_dir + ".partial"
@@ -122,8 +126,9 @@ def extract(repo=None, features=None, quiet=True):
         root = os.path.join(CACHE, "facts")
         try:
             ds = sorted((os.path.getmtime(os.path.join(root, d)), d) for d in os.listdir(root) if not d.endswith(".partial"))
-            for _, d in ds[:-200]:
-                shutil.rmtree(os.path.join(root, d), ignore_errors=True)
+            for mt, d in ds[:-200]:
+                if time.time() - mt > 900:
+                    shutil.rmtree(os.path.join(root, d), ignore_errors=True)
             for f in os.listdir(CACHE):
                 if f.startswith("extract-") and f.endswith(".lock") and time.time() - os.path.getmtime(os.path.join(CACHE, f)) > 6 * 3600:
                     os.unlink(os.path.join(CACHE, f))
